@@ -14,7 +14,7 @@ EXPLANATION = (
     "WebTransportUni arm of the uni-stream acceptor is guarded by the local enable_webtransport setting. "
     "Decides these clauses, not byte-level delivery."
     " C19-b also requires OpenBi/OpenUni to hand out the stream only on a path whose last has_remaining() test of the header buffer was false; C19-c requires both AsyncRead impls of BufRecvStream to poll the transport only with an empty buffer, to report end of stream only then, and to copy out the very chunk they took.")
-RULES = "C19-a id conversions/flows (A4); C19-b header tables, stream handed out only after the header is written in full (A11/A2); C19-c buffer survives split/into_inner/wrappers, unframed readers deliver buffered bytes before end of stream (A4/A13/A3); C19-d gating (A3); shared through a proxy: C16-a under C19-b; C04-e/C04-f (poll_next_varint) under C19-b"
+RULES = "C19-a id conversions/flows (A4); C19-b header tables, stream handed out only after the header is written in full (A11/A2); C19-c buffer survives split/into_inner/wrappers, unframed readers deliver buffered bytes before end of stream (A4/A13/A3); C19-d gating (A3); shared through a proxy: C16-a under C19-b; C04-e/C04-f (poll_next_varint) under C19-b; C17-b (poll_send) under C19-a"
 
 SID = "h3::webtransport::session_id::SessionId"
 STREAMID = "h3::proto::stream::StreamId"
@@ -341,3 +341,8 @@ def run(ctx):
         # the stream type and session id of a uni stream are read by poll_next_varint: complete-before-decode over ALL buffered chunks (C04-f)
         from rules import C04 as _c04p
         _c04p.run(_shp.Proxy(ctx, ("C04-f", "C04-e"), "C19-b", only=("poll_next_varint",)))
+        # the header of every stream the server opens is written through the adapter's unframed write: what it reports as written is
+        # what it took from the buffer (C17-b, poll_send), or a partial write drops or repeats part of the session id
+        if "h3_quinn" in ctx.prog.crates:
+            from rules import C17 as _c17p
+            _c17p.run(_shp.Proxy(ctx, ("C17-b",), "C19-a", only=("poll_send",)))
